@@ -45,6 +45,9 @@ def _inputs():
         'incompressible-280000-in-7000B-chunks': [(incompressible * 4)[i:i + 7000] for i in range(0, 280000, 7000)],
         'compressible-400000': [(b'0123456789abcdef' * 25000)],
         'compressible-3MiB': [b'2026-10-02 12:00:00 INFO request handled in 12 ms\n' * 20000] * 3,
+        'chunk-lengths-multiple-of-65535': [b'abcdefghij' * 13107, (b'0123456789' * 19661)[:196605], b'xyz'],
+        'one-byte-repeated-200000': [b'x' * 200000],
+        'incompressible-4.3MiB': [rnd.randbytes(131072) for _ in range(33)] + [rnd.randbytes(70001)],
     }
 
 
@@ -54,6 +57,8 @@ INPUTS = _inputs()
 def _more_inputs():
     rnd = random.Random(777)
     out = {}
+    # more than 2^20 chunks of varying length (element counters of the codec objects)
+    out['many-small-chunks-1048700'] = [b'abcdefg'[:1 + (i * 5) % 7] for i in range(1048700)]
     for n in (1, 2, 100, 1000, 65535, 65536, 65537, 131073, 200001):
         out['random-%d' % n] = [bytes(rnd.getrandbits(8) for _ in range(n))]
         out['text-%d' % n] = [(b'abcdefghij' * (n // 10 + 1))[:n][i:i + 50000] for i in range(0, n, 50000)]
@@ -80,11 +85,36 @@ def cases(unit):
 def ref_decode(codec, data):
     if codec == 'gzip':
         return gzip.decompress(data)
-    d = zstandard.ZstdDecompressor().decompressobj()
-    out = d.decompress(data)
-    if not d.eof:
-        raise ValueError('reference zstd decoder: frame not complete')
-    return out
+    # a standalone .zst file may consist of several frames: read across them
+    out = b''
+    rest = data
+    while True:
+        d = zstandard.ZstdDecompressor().decompressobj()
+        out += d.decompress(rest)
+        if not d.eof:
+            raise ValueError('reference zstd decoder: frame not complete')
+        if not d.unused_data:
+            return out
+        rest = d.unused_data
+
+
+def frame_ends(codec, data):
+    """Offsets at which an inner zstd frame ends (truncating there must still be an error)."""
+    ends = []
+    if codec != 'zstd':
+        return ends
+    pos = 0
+    rest = data
+    while rest:
+        d = zstandard.ZstdDecompressor().decompressobj()
+        d.decompress(rest)
+        if not d.eof:
+            break
+        pos = len(data) - len(d.unused_data)
+        if d.unused_data:
+            ends.append(pos)
+        rest = d.unused_data
+    return ends
 
 
 def viol(codec, sym, detail):
@@ -119,7 +149,7 @@ def run_case(case, acc):
         cutsets = [()] + [(p,) for p in pos] + [(p, q) for i, p in enumerate(pos) for q in pos[i + 1:]]
         if len(data) > 100000:
             cutsets = cutsets[::3]
-        if len(data) > 1000000:
+        if len(data) > 1000000 or name.startswith('chunk-lengths') or name.startswith('many-small'):
             cutsets = [()] + [(p,) for p in pos[::4]] + [tuple(sorted(set(itertools.accumulate(len(c) for c in sink.items))))[:-1]]
     seen_err = set()
 
@@ -152,7 +182,8 @@ def run_case(case, acc):
         for c in cuts:
             acc.states.add(fast_hash((codec, name, min(c, 30), min(L - c, 30))))
     # truncation: every byte (short) / position set (long)
-    tpos = list(range(0, L)) if L <= 300 else sorted(set(list(range(0, 25)) + list(range(L - 25, L)) + [L // 2, 65536 if L > 65536 else L // 3]))
+    tpos = list(range(0, L)) if L <= 300 else sorted(set(list(range(0, 25)) + list(range(L - 25, L)) + [L // 2, 65536 if L > 65536 else L // 3]
+                                                          + frame_ends(codec, comp)))
     for t in tpos:
         for cuts in ([()] + ([(t // 2,)] if t >= 2 else [])):
             chunks = spaces.chunk(comp[:t], cuts) if t else []
